@@ -301,18 +301,26 @@ MANIFEST = {
     "text": "Theorems (Coq, any Spawner implementation as a state machine with arbitrary attempt durations, any schedule of "
             "events with arbitrary arrival times and channel close time, any resolution of message/timeout races, any number "
             "of loop iterations): any two try_spawn calls of a run of spawner_task start >= 1 s apart, the later one >= 1 s "
-            "after the earlier one returned (C36_pace); for a spawner that stays incomplete the attempts are exactly periodic "
-            "- at the start, then exactly 1 s after the previous one returned - nothing else the loop does is later than that "
-            "deadline and the log only ends by channel close or try_spawn error (C36_keeps_trying_partial: run-level only for "
-            "spawners that never complete; for every spawner the per-iteration facts C36_attempt_when_due, "
+            "after the earlier one returned (C36_pace); keeps trying, for EVERY spawner including ones that alternate between "
+            "complete and incomplete (C36_keeps_trying): the whole log satisfies `keeps`, i.e. at every point of the run (start, "
+            "after each attempt, handled event or timeout), following the spawner's state along the log: incomplete and due "
+            "(no attempt yet or >= 1 s since the previous attempt returned) => the next thing is the attempt, at that very "
+            "instant; not due => the next thing (event handled / channel closed / timeout) happens no later than previous "
+            "return + 1 s, a timeout exactly then, never an attempt; attempts only while incomplete and due; the log ends only "
+            "by channel close, try_spawn error or the model's cut-off. Read off at an arbitrary point: C36_keeps_trying_next; "
+            "as an instant: if the spawner is incomplete at every loop top from some point up to the next attempt, that attempt "
+            "starts exactly at max(that point, previous return + 1 s) and nothing in between is later "
+            "(C36_next_attempt_instant); never-complete spawners are tried exactly periodically "
+            "(C36_keeps_trying_never_complete); per-iteration facts for every spawner (C36_attempt_when_due, "
             "C36_no_attempt_otherwise, C36_wait_bounded); the standard "
             "spawner inside the loop, for every DNS oracle: no attempt unless no source was spawned yet or a removal with a "
             "reason other than Demobilized was handled since (C36_no_respawn_demobilized), after an Unreachable removal the "
             "next source uses a newly resolved address, otherwise the cached one (C36_reresolve_unreachable).",
     "note": "Trusted: Coq kernel+vm_compute; hand-written model coq/Model/Spawner.v; harness harness/ntpd/c36.rs + this driver; "
-            "tokio timer semantics (paused clock, ms granularity) and zero-time handlers; the liveness statement is for spawners "
-            "that never complete (exact period) plus per-iteration facts, not a general fairness theorem for spawners that "
-            "alternate. NtsSpawner is model-only and (observation, outside the property's 'plain' spawner) respawns after "
+            "tokio timer semantics (paused clock, ms granularity) and zero-time handlers (assumed, not modelled: a handler that "
+            "awaits something pending would delay the deadline by its handling time); the keeps-trying theorems are safety "
+            "statements over finite logs of the fuel-bounded model for every fuel (bounded response: next attempt at the deadline, "
+            "log never ends while incomplete), there is no separate infinite-trace fairness theorem. NtsSpawner is model-only and (observation, outside the property's 'plain' spawner) respawns after "
             "Demobilized. Print Assumptions: closed under the global context for all theorems.",
     "design_ref": "DESIGN.md 3 C36",
 }
